@@ -37,16 +37,22 @@ def main():
         assert sh(f"git -C /repo worktree add -q --detach {d} HEAD").returncode == 0
         try:
             rv = sh(f"git -C {d} revert -n {commit}")
+            how = "clean"
             if rv.returncode != 0:
-                rows[commit] = {"property": prop, "what": what[:160], "revert": "does not apply on HEAD (a later repair touches the same lines)"}
-                print(commit, prop, "revert conflict")
-                continue
+                # a later repair touches the same lines: use the hand-made equivalent (seeded/reverted/<commit>.diff) if there is one
+                manual = os.path.join(VERIF, "seeded", "reverted", commit + ".diff")
+                sh(f"git -C {d} revert --abort; git -C {d} checkout -q -- .")
+                if not os.path.exists(manual) or sh(f"git -C {d} apply {manual}").returncode != 0:
+                    rows[commit] = {"property": prop, "what": what[:160], "revert": "does not apply on HEAD (a later repair touches the same lines)"}
+                    print(commit, prop, "revert conflict")
+                    continue
+                how = "hand-made equivalent seeded/reverted/%s.diff" % commit
             ev = tempfile.mkdtemp(prefix="rvev-", dir="/tmp")
             r = sh(f"cd {VERIF} && timeout 3000 ./check {prop} --tier quick", env=dict(os.environ, VERIF_REPO=d, VERIF_EVIDENCE_DIR=ev))
             shutil.rmtree(ev, ignore_errors=True)
             first = next((l.strip() for l in r.stdout.splitlines() if l.strip().startswith("what:")), "")
             nviol = sum(1 for l in r.stdout.splitlines() if l.startswith("VIOLATION"))
-            rows[commit] = {"property": prop, "what": what[:160], "revert": "clean", "exit": r.returncode, "violations": nviol, "first": first[:300]}
+            rows[commit] = {"property": prop, "what": what[:160], "revert": how, "exit": r.returncode, "violations": nviol, "first": first[:300]}
             print(commit, prop, "exit", r.returncode, "violations", nviol, first[:160])
         finally:
             sh(f"git -C /repo worktree remove --force {d}")
